@@ -33,3 +33,4 @@ def run(ctx, crate):
     rule_suspend_protocol(ctx, crate)
     D.rule_text_not_counted(ctx, crate)
     D.rule_draw_order(ctx, crate)
+    D.rule_painted_is_measured(ctx, crate)
